@@ -160,6 +160,8 @@ class SymRepo(G.Repository):
         self.cache = None
         self.cache_tags = None
         self.fetch_fault = None   # True / z3 Bool: the next refresh of the mirror cache fails
+        self.race_ref = None      # a branch somebody pushes to during the next clone
+        self.raced = []
         self.content_keyed = False
         self.statusC = z3.Function('status_of_content', z3.BitVecSort(W), z3.IntSort())
         self.boundary = None     # f(repo, what): called before every push command
@@ -398,8 +400,14 @@ class SymRepo(G.Repository):
         raise HarnessError('clone form: %r' % (rest,))
 
     def _git_fetch(self, rest, kw):
-        if rest != ['--prune']:
+        flags = [r for r in rest if r.startswith('--')]
+        pos = [r for r in rest if not r.startswith('--')]
+        if '--prune' not in flags or any(f not in ('--prune', '--tags') for f in flags) or \
+                (pos and pos != ['origin', '+refs/heads/*:refs/heads/*']):
             raise HarnessError('symgit: fetch form %r not modelled' % (rest,))
+        # in a mirror, `fetch --prune` follows every ref; with an explicit heads refspec the
+        # tags only arrive through --tags, which never deletes one
+        tags_pruned = not pos
         # refresh of the mirror cache; may fail (network, stale lock) when the harness says so
         fault = self.fetch_fault
         if fault is not None and fault is not False:
@@ -408,10 +416,24 @@ class SymRepo(G.Repository):
                 self.fetch_fault = None
                 raise CommandError('fatal: unable to access the remote (cache refresh)')
         self.cache = dict(self.remote)
-        self.cache_tags = dict(self.remote_tags)
+        if tags_pruned:
+            self.cache_tags = dict(self.remote_tags)
+        else:
+            merged = dict(self.cache_tags or {})
+            if '--tags' in flags:
+                merged.update(self.remote_tags)
+            self.cache_tags = merged
         return ''
 
     def _git_remote(self, rest, kw):
+        if rest[:2] == ['update', 'origin'] and self.model_clone and self.race_ref is not None:
+            # somebody pushes a commit while this job is cloning: after the mirror cache was
+            # refreshed, before origin/* are updated
+            r, self.race_ref = self.race_ref, None
+            if r in self.remote:
+                self.remote[r] = self.fresh(self.cl(self.remote[r]), 'commit pushed during the clone on ' + r,
+                                            parents=[self.remote[r]])
+                self.raced.append(self.remote[r].as_long())
         if rest[:2] == ['update', 'origin'] and self.model_clone:
             # origin/* now follow the server; local branches are untouched
             self.tracking = dict(self.remote)
@@ -667,9 +689,10 @@ class SymRepo(G.Repository):
         flags = [r for r in rest if r.startswith('--')]
         pos = [r for r in rest if not r.startswith('--')]
         for f in flags:
-            if f not in ('--all', '--atomic', '--prune', '--force',
+            if f not in ('--all', '--atomic', '--prune', '--force', '--force-with-lease',
                          '--set-upstream'):
                 raise HarnessError('push flag %r' % f)
+        lease = '--force-with-lease' in flags
         self.third_party('before push %s' % ' '.join(rest))
         if self.boundary is not None:
             self.boundary(self, 'git push %s' % ' '.join(rest))
@@ -686,13 +709,20 @@ class SymRepo(G.Repository):
                     if self.ctx.decide(self.remote[r] == new):
                         continue          # up to date
                     ff = force or self.subset(self.cl(self.remote[r]), self.cl(new))
+                    if not ff and lease and r in self.tracking and \
+                            self.ctx.decide(self.tracking[r] == self.remote[r]):
+                        ff = True         # the lease holds: the update is forced
                 else:
                     ff = True
                 cands.append(('update', r, new, ff))
             if prune:
                 for r in sorted(self.remote):
                     if r not in self.tip:
-                        cands.append(('delete', r, None, True))
+                        # (with a lease, a branch this clone never saw is not deleted)
+                        if lease and r not in self.tracking:
+                            cands.append(('delete', r, None, False))
+                        else:
+                            cands.append(('delete', r, None, True))
             if atomic:
                 # only the disjunction matters: one refusal refuses everything
                 anyrej = z3.Or(*[self.rej(r) for (_, r, _, _) in cands]) if cands else z3.BoolVal(False)
